@@ -123,6 +123,9 @@ def generate(repo, ws, write_if_changed):
         dict(kind="struct", name="VerifiedExtendedHeaders", rewrite=[("#[derive(Clone)]", "// derive removed by the slicer")]),
         dict(kind="impl", impl=r"^impl TryFrom<Vec<ExtendedHeader>> for VerifiedExtendedHeaders$"),
     ]))
+    emit("namespace_data_c06.rs", slice_file(repo, "types/src/namespace_data.rs", [
+        dict(kind="fn", name="verify", impl=r"^impl NamespaceData$", wrap="impl NamespaceData"),
+    ]))
     emit("commitment_c12.rs", slice_file(repo, "types/src/blob/commitment.rs", [
         dict(kind="fn", name="merkle_mountain_range_sizes"),
         dict(kind="fn", name="blob_min_square_size"),
